@@ -257,6 +257,11 @@ def main():
         # - both still without contraction or fast-math - must give the observations of the ordinary build, bit for bit
         ref = {r['case'][0]: r for r in cxx_results}
         nd_cases = [c_ for c_ in cases if c_[0] in ref and not textcmp.has_ub(ref[c_[0]]['model']) and not (isinstance(ref[c_[0]]['cxx'], list) and ref[c_[0]]['cxx'] and ref[c_[0]]['cxx'][0] in ('crash', 'exception'))]
+        # (a text that contains inf / nan cannot be read back, and what the reader then does depends on the garbage it reads: excluded)
+        def unreadable(o):
+            return any(isinstance(x, list) and x and x[0] in ('text', 'wrote') and any(isinstance(y, bytes) and (b'inf' in y or b'nan' in y) for y in x[1:]) for x in (o if isinstance(o, list) else [])) \
+                or b'inf' in dump(o).encode() and 'stream_failed' in dump(o)
+        nd_cases = [c_ for c_ in nd_cases if not unreadable(ref[c_[0]]['cxx'])]
         if a.tier != 'thorough' and len(nd_cases) > 120:
             rng4 = random.Random(seed * 15485863 + int(pid[1:])); nd_cases = rng4.sample(nd_cases, 120)
         lines = [dump([i, t, cmd, args, []]) for (i, t, cmd, args) in nd_cases]
